@@ -67,6 +67,28 @@ Definition judge_consumed (bs consumed : bytes) : bytes :=
   | None => str "bad:no-complete-value"
   end.
 
+(* a packed event stream: back-to-back [EventTime, record-map] entries, nothing else *)
+Fixpoint parse_all (fuel : nat) (bs : bytes) (acc : list value) : option (list value) :=
+  match fuel with
+  | O => None
+  | S f => match bs with
+           | [] => Some (rev acc)
+           | _ => match parse1 bs with Some (v, r) => parse_all f r (v :: acc) | None => None end
+           end
+  end.
+Definition show_sentries (es : list (stime * value)) : bytes :=
+  str "[" ++ sep_concat (str ",") (map (fun e => str "(" ++ show_stime (fst e) ++ str "," ++ show_value (snd e) ++ str ")") es) ++ str "]".
+Definition judge_stream (st expected : bytes) : bytes :=
+  let b := unhex st in
+  match parse_all (S (List.length b)) b [] with
+  | Some vs =>
+      match as_entries true vs with
+      | Some es => if bytes_eqb (show_sentries es) expected then str "ok" else str "bad:value:" ++ show_sentries es
+      | None => str "bad:not-entries"
+      end
+  | None => str "bad:not-msgpack"
+  end.
+
 Definition judge_chunk (bs impl : bytes) : bytes :=
   match spec_parse shape_any (unhex bs) with
   | Some (m, []) =>
@@ -139,6 +161,7 @@ Definition run_codec (e : bytes) (args : list bytes) : option bytes :=
       let bs := unhex b in
       if is e "et_payload" then Some (hex (et_payload (read_Z a) (read_N b)))
       else if is e "judge_consumed" then Some (judge_consumed a b)
+      else if is e "judge_stream" then Some (judge_stream a b)
       else if is e "judge_chunk" then Some (judge_chunk a b)
       else if is e "U_message" then Some (show_dec show_message (U_message p zero_message bs))
       else if is e "U_message_ext" then Some (show_dec show_message_ext (U_message_ext p zero_message_ext bs))
